@@ -155,8 +155,18 @@ def _prune(prefix, keep):
                 os.path.isdir(os.path.join(BUILD, e))]
     except FileNotFoundError:
         return
-    ents.sort(key=lambda e: os.path.getmtime(os.path.join(BUILD, e)), reverse=True)
-    for e in ents[keep:]:
+    # other threads and processes build and prune concurrently: an entry may vanish between listdir and stat,
+    # and an entry used within the last 15 minutes may still be in use and is never removed
+    def mtime(e):
+        try:
+            return os.path.getmtime(os.path.join(BUILD, e))
+        except OSError:
+            return 0.0
+    stamped = sorted(((mtime(e), e) for e in ents), reverse=True)
+    now = time.time()
+    for t, e in stamped[keep:]:
+        if t and now - t < 900:
+            continue
         shutil.rmtree(os.path.join(BUILD, e), ignore_errors=True)
 
 
